@@ -55,6 +55,7 @@ gradient_walker_reset (pixman_gradient_walker_t *walker,
 		       pixman_fixed_48_16_t      pos)
 {
     int64_t x, left_x, right_x;
+    pixman_fixed_48_16_t offset;
     pixman_color_t *left_c, *right_c;
     int n, count = walker->num_stops;
     pixman_gradient_stop_t *stops = walker->stops;
@@ -89,10 +90,11 @@ gradient_walker_reset (pixman_gradient_walker_t *walker,
     right_x =  stops[n].x;
     right_c = &stops[n].color;
 
+    offset = 0;
+
     if (walker->repeat == PIXMAN_REPEAT_NORMAL)
     {
-	left_x  += (pos - x);
-	right_x += (pos - x);
+	offset = pos - x;
     }
     else if (walker->repeat == PIXMAN_REPEAT_REFLECT)
     {
@@ -111,8 +113,7 @@ gradient_walker_reset (pixman_gradient_walker_t *walker,
 
 	    x = 0x10000 - x;
 	}
-	left_x  += (pos - x);
-	right_x += (pos - x);
+	offset = pos - x;
     }
     else if (walker->repeat == PIXMAN_REPEAT_NONE)
     {
@@ -136,6 +137,10 @@ gradient_walker_reset (pixman_gradient_walker_t *walker,
     rg = (right_c->green * (1.0f/257.0f));
     rb = (right_c->blue * (1.0f/257.0f));
     
+    /* The interpolation coefficients are computed, and later evaluated,
+     * relative to the start of the current repetition: far away from the
+     * origin, floats can't tell the two stop positions apart any more.
+     */
     lx = left_x * (1.0f/65536.0f);
     rx = right_x * (1.0f/65536.0f);
     
@@ -162,8 +167,9 @@ gradient_walker_reset (pixman_gradient_walker_t *walker,
 	walker->b_s = (rb - lb) * w_rec * (1.0f/255.0f);
     }
    
-    walker->left_x = left_x;
-    walker->right_x = right_x;
+    walker->left_x = left_x + offset;
+    walker->right_x = right_x + offset;
+    walker->offset = offset;
 
     walker->need_reset = FALSE;
 }
@@ -178,7 +184,7 @@ pixman_gradient_walker_pixel_float (pixman_gradient_walker_t *walker,
     if (walker->need_reset || x < walker->left_x || x >= walker->right_x)
 	gradient_walker_reset (walker, x);
 
-    y = x * (1.0f / 65536.0f);
+    y = (x - walker->offset) * (1.0f / 65536.0f);
 
     f.a = walker->a_s * y + walker->a_b;
     f.r = f.a * (walker->r_s * y + walker->r_b);
@@ -198,7 +204,7 @@ pixman_gradient_walker_pixel_32 (pixman_gradient_walker_t *walker,
     if (walker->need_reset || x < walker->left_x || x >= walker->right_x)
 	gradient_walker_reset (walker, x);
 
-    y = x * (1.0f / 65536.0f);
+    y = (x - walker->offset) * (1.0f / 65536.0f);
 
     /* Instead of [0...1] for ARGB, we want [0...255],
      * multiply alpha with 255 and the color channels
